@@ -20,6 +20,28 @@ CHECKS = {
              "and are compared with their specs on generated histories each run. Go is run on the same histories and compared with both.",
         note=NOTE_COMMON + "Refinement is proved for the geom2 types; for MultiPoint and MultiPolygon only the per-run comparison with the spec machine is available (partial).",
     ),
+    "C05": dict(
+        technique="Lean 4 theorems about the grammar actions' offset arithmetic (parts incl. EMPTY members rebuild exactly SetCoords' flat coordinates, ends and endss) + "
+                  "LALR parser model regenerated from wkt.gen.go (tables verbatim, actions translated) + correspondence with Go on encoder output and spelling variants, "
+                  "judged by an independent reference WKT reader",
+        text="C05_parts_rebuild, C05_multilinestring_rebuild, C05_multipoint_rebuild, C05_multipolygon_rebuild and the *_matches_setCoords corollaries: folding the list rules "
+             "(makeGeomFlatCoordsRepr / appendGeomFlatCoordsReprs / makeMultiPolygonFlatCoordsRepr / appendMultiPolygonFlatCoordsRepr) over the parts of a text in order gives the "
+             "concatenated coordinates and exactly the end offsets SetCoords computes, with EMPTY members at any position, for lists of any length. The run executes the "
+             "regenerated parser model on Go's encoder output and on random standard spellings and requires Go = model = reference reader = original geometry at the "
+             "flat-representation level, every emitted number re-read exactly.",
+        note=NOTE_COMMON + "That the LALR tables apply the actions in list order, the lexer's handling of spellings and strconv are validated by the correspondence, not proved.",
+    ),
+    "C06": dict(
+        technique="Lean 4 invariant proof (layout-stack invariant by induction over protocol-following call sequences: no panic site reachable; lexer position invariant => "
+                  "Error() slicing total; soundness of the point/line/ring checks) + LALR parser model regenerated from wkt.gen.go with a ghost call trace checked against "
+                  "the protocol + byte-exact correspondence with Go incl. rendered error messages + reference reader / consistency oracle",
+        text="C06_assertions_unreachable: from a fresh lexer no call sequence following the protocol automaton reaches any panic() of lex.go / lex_stack.go or an out-of-range "
+             "ring index (C06_step_invariant is the one-step lemma); C06_lexer_positions + C06_error_renderable: every recorded syntax error points inside the text on a "
+             "newline-free line prefix, so (*SyntaxError).Error never slices out of range; C06_point/line/ring_check_sound. Each run checks that the regenerated tables "
+             "only emit protocol-following traces, compares Go's result or rendered message with the model on every input, and judges accepted geometries by the "
+             "consistency predicate, the reference reader and an encode/parse round trip.",
+        note=NOTE_COMMON + "Termination and in-range table/stack indexing of the goyacc loop are observed (fuel / explicit index errors in the model), not proved.",
+    ),
     "C08": dict(
         technique="Lean 4 theorems over any linear order (fold of min/max is the glb/lub; Overlaps = interval arithmetic) + differential correspondence with a semantic X/Y/Z/M oracle",
         text="Theorems: Bounds() of every flat geometry is the fold of coordinate-wise min/max (C08_bounds_flat_fold), that fold is exactly the greatest "
